@@ -82,6 +82,9 @@ RenderedOk(lib, st, bytes) ==
         THEN /\ (got.eff \cap (EffOf(lib) \ {"BOLD"})) = (want.eff \cap (EffOf(lib) \ {"BOLD"}))
              /\ ("BOLD" \in want.eff => "BOLD" \in got.eff)
              /\ (("BOLD" \in got.eff /\ "BOLD" \notin want.eff) => fgBright)     \* only a bright foreground may add bold
+             \* ... and a bright foreground IS conveyed: as bold (what the adapter does) or as the exact bright palette entry
+             \* (what the library could also express) - whatever other effects the style carries
+             /\ (fgBright => ("BOLD" \in got.eff \/ PalIndex(got.fg) \in 8..15))
         ELSE (got.eff \cap EffOf(lib)) = (want.eff \cap EffOf(lib))
      /\ got.eff \subseteq (want.eff \cup (IF lib = "ansi_term" THEN {"BOLD"} ELSE {}))      \* nothing invented
 
